@@ -252,7 +252,7 @@ def cargo_build(crate, features=(), profile="release", hook=False, tag=None):
     if features:
         cmd += ["--features", ",".join(features)]
     rc, out = sh(cmd, cwd=os.path.join(VERIF, "harness", crate), env=env, timeout=1500)
-    binname = {"ds": "verif_ds", "dc": "verif_dc", "ring": "verif_ring"}.get(crate, crate)
+    binname = "verif_" + crate
     path = os.path.join(tdir, "release" if profile == "release" else "debug", binname)
     if rc != 0 or not os.path.exists(path):
         return None, out[-2000:]
@@ -472,7 +472,7 @@ class Differential:
     """impl (one or more builds) vs extracted model vs executable spec, on integer-coded cases."""
 
     def __init__(self, run, bins, model_entry, spec_entry, oracle=None, known=None, nontrivial=None,
-                 harness_head=None, isolated=False, describe=None, max_reports=3):
+                 harness_head=None, isolated=False, describe=None, max_reports=3, applicable=None):
         self.run = run; self.bins = bins
         self.model_entry = model_entry; self.spec_entry = spec_entry
         self.oracle = oracle or (lambda case, impl, spec: None if impl == spec else f"impl={impl!r} spec={spec!r}")
@@ -480,6 +480,7 @@ class Differential:
         self.nontrivial = nontrivial or (lambda case: len(case.ops) >= 2)
         self.harness_head = harness_head or (lambda case: case.fam)
         self.isolated = isolated
+        self.applicable = applicable or (lambda case, build: True)
         self.describe = describe or (lambda case: case.to_json())
         self.max_reports = max_reports
         self.real = 0
@@ -528,12 +529,14 @@ class Differential:
                 if self.nontrivial(c):
                     run.cov["distinct_nontrivial"] += 1
             for b in self.bins:
+                if not self.applicable(c, b):
+                    continue
                 il = impl[b][i]
                 corr_ok, of, kn = self.judge(c, il, model[i], spec[i])
                 if corr_ok and of is None:
                     continue
                 run.cov["disagreements_checked"] += 1
-                if of is not None and kn is not None:
+                if of is not None and kn is not None and listed_open(run.prop, kn[0]):
                     run.known(kn[0], kn[1])
                     continue
                 if of is not None:
@@ -593,8 +596,12 @@ def fails_only(diff, cands, build):
     for i, c in enumerate(cands):
         il = impl[build][i]
         corr_ok, of, kn = diff.judge(c, il, model[i], spec[i])
-        res.append(of is not None and kn is None)
+        res.append(of is not None and not (kn is not None and listed_open(diff.run.prop, kn[0])))
     return res
+
+
+def listed_open(prop, fid):
+    return any(f.get("id") == fid for f in known_findings(prop))
 
 
 def fatal(run, what, detail):
